@@ -441,7 +441,7 @@ func c03ForeignDriver(maxArity int) func(c *explore.Chooser, k int) *c03Case {
 		form := 0
 		if !unitArg {
 			supplied = 1 + c.Choose(n) // how many arguments the first application supplies
-			form = c.Choose(5)          // 0 direct / let-bound, 1 piped, 2 slice.Map (last argument from a slice), 3 explicit type arguments, 4 let-bound then applied in two steps
+			form = c.Choose(5)         // 0 direct / let-bound, 1 piped, 2 slice.Map (last argument from a slice), 3 explicit type arguments, 4 let-bound then applied in two steps
 		}
 		var vals []string
 		for _, p := range params {
